@@ -42,6 +42,7 @@ type Workload struct {
 	MapSalt   uint64        `json:"map_salt"`
 	MapPolicy int           `json:"map_policy"`
 	HashEvery bool          `json:"hash_every_step"`
+	ExactHash bool          `json:"exact_hash,omitempty"` // never stride the per-step hash (set when pinning a violation)
 	Sched     SchedSpec     `json:"sched"`
 	Forced    []simrt.Event `json:"schedule,omitempty"` // when present the run follows it exactly
 	UseForced bool          `json:"use_schedule,omitempty"`
@@ -255,6 +256,8 @@ func (o *Outcome) String() string {
 type watch struct {
 	on        bool
 	every     bool
+	stride    uint64 // per-step hashing of a large document is done every stride-th step
+	tick      uint64
 	docs      []interface{}
 	base      []uint64
 	hit       bool
@@ -286,8 +289,30 @@ func watchCheck(c int, site int32) {
 //go:norace
 func onStep(c int, site int32) {
 	if wt.on && wt.every {
-		watchCheck(c, site)
+		wt.tick++
+		if wt.stride <= 1 || wt.tick%wt.stride == 0 {
+			watchCheck(c, site)
+		}
 	}
+}
+
+// countNodes: size of a JSON-shaped document (typed documents count as small).
+func countNodes(v interface{}, d int) int {
+	if d > 64 {
+		return 1
+	}
+	n := 1
+	switch x := v.(type) {
+	case []interface{}:
+		for _, e := range x {
+			n += countNodes(e, d+1)
+		}
+	case map[string]interface{}:
+		for _, e := range x {
+			n += countNodes(e, d+1)
+		}
+	}
+	return n
 }
 
 //go:norace
@@ -438,6 +463,33 @@ func runSched(w *Workload) *RunReport {
 		}
 	}
 
+	var est uint64
+	for ci := range rep.Refs {
+		for oi := range rep.Refs[ci] {
+			est += rep.Refs[ci][oi].Steps
+		}
+	}
+	if w.Sched.EstSteps == 0 {
+		w.Sched.EstSteps = est + 10
+	}
+	// a context switch costs ~10-30 µs: on long runs thin the preemptions out so that a run
+	// makes at most ~20 000 of them (deterministic: derived from the reference step counts)
+	if est > 100000 && !w.UseForced {
+		scale := est / 20000
+		if q := uint64(w.Sched.Quantum); simrt.Policy(w.Sched.Policy) == simrt.PolRoundRobin && q < scale {
+			w.Sched.Quantum = scale
+		}
+		if p := uint64(w.Sched.P); p*est/65536 > 20000 {
+			w.Sched.P = uint32(20000 * 65536 / est)
+		}
+		if p := uint64(w.Sched.PHigh); p*est/65536 > 40000 {
+			w.Sched.PHigh = uint32(40000 * 65536 / est)
+		}
+		if p := uint64(w.Sched.PLow); p*est/65536 > 20000 {
+			w.Sched.PLow = uint32(20000 * 65536 / est)
+		}
+	}
+
 	// 2. pristine world for the concurrent phase
 	progressPhase(2)
 	zzverifrt.ResetAll()
@@ -466,6 +518,15 @@ func runSched(w *Workload) *RunReport {
 			wt.base[i] = hashDoc(d)
 		}
 		wt.every = w.HashEvery
+		// hashing is O(document): on a large document hash every k-th step only (a violation
+		// found that way is pinned by re-executing the recorded schedule with k = 1)
+		nodes := 0
+		for _, d := range e.docs {
+			nodes += countNodes(d, 0)
+		}
+		if nodes > 200 && !w.ExactHash {
+			wt.stride = uint64(nodes / 100)
+		}
 		wt.on = true
 	}
 
@@ -548,7 +609,7 @@ func runSched(w *Workload) *RunReport {
 	case "C06":
 		if wt.hit {
 			v := Violation{Prop: "C06", Class: "doc-write"}
-			if w.HashEvery {
+			if w.HashEvery && wt.stride <= 1 {
 				v.Sig = siteName(wt.hitSite)
 				v.Detail = fmt.Sprintf("document %d was written by client %d in statement %s (%s) at global step %d: capacity-covering hash changed", wt.hitDoc, wt.hitClient, siteName(wt.hitSite), siteFunc(wt.hitSite), wt.hitStep)
 			} else {
